@@ -72,7 +72,8 @@ def real_oracle(prog, out):
                 v.append(("fabricated_or_wrong_value", f"task {i}: {o}"))
         elif "BrokenProcessPool" not in o[2]:
             v.append(("wrong_error_after_worker_death", f"task {i}: {o[:2]}"))
-        elif o[1] == "TerminatedWorkerError" and plan["action"].startswith("kill:") and f"SIG" not in o[3] and "EXIT" not in o[3]:
+        elif o[1] == "TerminatedWorkerError" and plan["action"].startswith("kill:") and f"(-{plan['action'][5:]})" not in o[3] \
+                and "SIG" not in o[3] and "EXIT" not in o[3]:
             v.append(("exit_code_not_named", f"task {i}: {o[3][-200:]}"))
     if unannounced:
         pr = m["probe"]
@@ -109,7 +110,7 @@ def real_shard(seed, n, tier="quick"):
     @settings(max_examples=n, database=None, deadline=None, suppress_health_check=list(HealthCheck), report_multiple_bugs=False,
               phases=phases)
     @given(st.integers(1, 3), st.sampled_from([None, None, 0.3, 20]), st.lists(task, min_size=1, max_size=8),
-           st.sampled_from(KILL_POINTS), st.integers(1, 6), st.sampled_from(["kill:9", "kill:11", "kill:15", "exit:3", "exit:0"]),
+           st.sampled_from(KILL_POINTS), st.integers(1, 6), st.sampled_from(["kill:9", "kill:11", "kill:15", "kill:37", "kill:6", "exit:3", "exit:0"]),
            st.sampled_from([0, 0, 0.02]))
     def t(workers, timeout, tasks, point, nth, action, gap):
         if point in ("worker.before_announce", "worker.announced") and timeout is None:
